@@ -59,6 +59,15 @@ theorem gen_skeletons :
     Gen.GC.skel_stop = [.call "joinable", .call "push", .call "join"] ∧
     Gen.GC.skel_retire = [.call "retire", .call "tick", .call "push"] := by decide
 
+/-- the whole statement text of the two life-cycle functions: `start()` does nothing but launch
+`keep_reclaim` unless a thread is joinable — in particular it leaves the queue alone, so what was
+retired while no collector was running is still there; `stop()` pushes the marker and joins iff a
+thread is joinable. -/
+theorem gen_life_cycle_shape :
+    Gen.GC.startBody = "{if(!_gc_thread.joinable()){_gc_thread=::std::thread(&GarbageCollector<R>::keep_reclaim,this);}return0;}" ∧
+    Gen.GC.skel_start = [.call "joinable", .call "::std::thread"] ∧
+    Gen.GC.stopBody = "{if(_gc_thread.joinable()){_queue.templatepush<true,false,false>(ReclaimTask{});_gc_thread.join();}}" := by decide
+
 /-- the call sites of the two lower layers the specification is stated over: `tick` is one SC
 `fetch_add(1)` returning old + 1; `lock` reads the global version then stores it in the slot then
 fences; `unlock` stores the idle value `UINT64_MAX`; the scan loads the slots with acquire; a push
@@ -174,7 +183,7 @@ theorem gc_retire_blocks_not_drops (c : Cfg) (s : State) (h : Reach c s) :
       · cases hsome
     · intro hlt
       rw [if_pos ⟨h1, hlt⟩]; rfl
-  · intro hn; exact (hi.k.runEq (hi.k.run.mpr hn)).2
+  · intro hn; exact (hi.k.runEq hn).2
   · intro id e k hcall hbefore hmem
     -- the task is in the queue or among the consumed ones; `places` has no duplicates
     have hk := hi.q.tick id e k hcall
@@ -197,7 +206,7 @@ theorem gc_retire_blocks_not_drops (c : Cfg) (s : State) (h : Reach c s) :
             apply List.mem_of_getElem? (i := k)
             rw [getElem?_takeWhile_notMarker hkj]; exact hkp
           exact hi.k.pre.subset (mem_tasksOf.mpr this)
-        · rw [(hi.k.runEq (hi.k.run.mpr hm)).1]
+        · rw [(hi.k.runEq hm).1]
           exact mem_tasksOf.mpr (List.mem_of_getElem? hkp)
       rw [← hi.k.split] at hcm
       have hin : id ∈ s.invoked ++ (s.tasks.drop s.index).map (·.id) := by
@@ -228,23 +237,46 @@ theorem gc_retire_blocks_not_drops (c : Cfg) (s : State) (h : Reach c s) :
 
 /-! ### all before stop returns -/
 
-/-- ticket form: when `stop()` has returned, every reclaimer whose queue ticket precedes the stop
-marker's ticket has been invoked (no fairness needed: this is about the moment `stop()` returns). -/
-theorem gc_all_before_marker (c : Cfg) (s : State) (h : Reach c s) (hret : s.stop = .returned)
-    (id e k : Nat) (hcall : s.calls id = .publish e k ∨ s.calls id = .done e k)
-    (hbefore : ∀ km : Nat, s.allItems[km]? = some Item.marker → k < km) : id ∈ s.invoked :=
-  all_before_marker h hret hcall hbefore
-
-/-- **All before stop**: when `stop()` has returned, every reclaimer whose `retire` had obtained its
-ticket before `stop()` was called — in particular every reclaimer whose `retire` had returned
-(`gc_retired_before_stop_has_early_ticket`) — has been invoked. -/
+/-- **All before stop**, over any number of `start()` / `stop()` cycles: when a `stop()` (on a running
+collector) has returned, every reclaimer whose `retire` had obtained its ticket before that `stop()`
+was called — in particular every reclaimer whose `retire` had returned
+(`gc_retired_before_stop_has_early_ticket`), whether the collector was running at the time or not
+(retired before the first `start()`, or between a `stop()` and the next `start()`) — has been
+invoked.  The only exception is a `retire` that took its ticket *while an earlier `stop()` was in
+progress* (`late`: a client race the property excludes); no fairness is needed: this is about the
+moment `stop()` returns, and it stays true afterwards, also across the next `start()`. -/
 theorem gc_all_before_stop (c : Cfg) (s : State) (h : Reach c s) (hret : s.stop = .returned)
-    (id e k p : Nat) (hcall : s.calls id = .done e k) (hp : s.pushAtStop = some p) (hk : k < p) :
-    id ∈ s.invoked := by
-  apply all_before_marker h hret (Or.inr hcall)
-  intro km hkm
-  obtain ⟨p', hp', hle⟩ := (reach_inv h).st.mark km hkm
-  rw [hp] at hp'; injection hp' with hp'; omega
+    (id e k p : Nat) (hcall : s.calls id = .done e k) (hp : s.pushAtStop = some p) (hk : k < p)
+    (hlate : id ∉ s.late) : id ∈ s.invoked :=
+  all_before_stop h hret (Or.inr hcall) hp hk hlate
+
+/-- the unconditional form: invoked, or skipped behind a stop marker -/
+theorem gc_all_before_stop_or_skipped (c : Cfg) (s : State) (h : Reach c s) (hret : s.stop = .returned)
+    (p k : Nat) (t : Task) (hp : s.pushAtStop = some p) (hk : k < p)
+    (hkt : s.allItems[k]? = some (Item.task t)) : t.id ∈ s.invoked ∨ t ∈ s.dropped :=
+  reach_rprop h hret p hp k t hk hkt
+
+/-- what is skipped behind a marker took its ticket while a `stop()` was in progress, and a `retire`
+that takes its ticket at any other time is never marked `late` by that step -/
+theorem gc_skipped_only_late (c : Cfg) (s : State) (h : Reach c s) : ∀ t ∈ s.dropped, t.id ∈ s.late :=
+  (reach_linv h).dropLate
+
+theorem gc_not_late_outside_stop (c : Cfg) (s s' : State) (id : Nat)
+    (hs : step c s (.reserve id) = some s')
+    (hout : s.stop = .idle ∨ s.stop = .reserve ∨ s.stop = .returned) : s'.late = s.late := by
+  simp only [step, stepWith] at hs
+  split at hs <;> try contradiction
+  injection hs with hs; subst hs
+  rcases hout with h | h | h <;> simp [h]
+
+/-- `start()` leaves the queue alone: nothing retired while no collector was running is lost -/
+theorem gc_start_keeps_queue (c : Cfg) (s s' : State) (hs : step c s .start = some s') :
+    s'.cells = s.cells ∧ s'.pushIdx = s.pushIdx ∧ s'.popIdx = s.popIdx ∧ s'.allItems = s.allItems ∧
+    s'.calls = s.calls ∧ s'.log = s.log := by
+  simp only [step, stepWith] at hs
+  split at hs
+  · injection hs with hs; subst hs; exact ⟨rfl, rfl, rfl, rfl, rfl, rfl⟩
+  · injection hs with hs; subst hs; exact ⟨rfl, rfl, rfl, rfl, rfl, rfl⟩
 
 /-- a `retire` that has its ticket (a fortiori one that has returned) when `stop()` is called has a
 ticket below the push index recorded at that call -/
@@ -278,14 +310,20 @@ theorem gc_collector_loop_invariant (c : Cfg) (s : State) (h : Reach c s) :
     (Item.marker ∉ s.popped → s.consumed = tasksOf s.popped) ∧
     s.popped = s.allItems.take s.popIdx := by
   have hi := reach_inv h
-  refine ⟨hi.k.idx, hi.k.split, hi.k.sub, hi.k.pre, fun hn => (hi.k.runEq (hi.k.run.mpr hn)).1, ?_⟩
+  refine ⟨hi.k.idx, hi.k.split, hi.k.sub, hi.k.pre, fun hn => (hi.k.runEq hn).1, ?_⟩
   simp [State.allItems, ← hi.q.popLen]
 
-/-- once the collector thread has finished, nothing it consumed is left un-reclaimed and the marker
-has been seen; `stop()` returns only after that -/
+/-- once a collector thread has finished (and after it has been joined), nothing it consumed is left
+un-reclaimed, and it finishes only after it has popped a marker of its own run -/
 theorem gc_collector_done (c : Cfg) (s : State) (h : Reach c s) :
-    (s.cpc = .done → s.running = false ∧ s.tasks.drop s.index = []) ∧ (s.stop = .returned → s.cpc = .done) :=
-  ⟨(reach_inv h).k.fin, (reach_inv h).k.ret⟩
+    (s.cpc = .done → s.running = false ∧ s.tasks.drop s.index = [] ∧ Item.marker ∈ s.popped.drop s.runBase) ∧
+    (s.cpc = .off → s.tasks.drop s.index = []) := by
+  have hk := (reach_inv h).k
+  refine ⟨fun hd => ⟨(hk.fin hd).1, (hk.fin hd).2, ?_⟩, hk.finOff⟩
+  apply Classical.byContradiction
+  intro hn
+  have := hk.run.mpr hn
+  rw [(hk.fin hd).1] at this; cases this
 
 /-! ### `stop()` returns -/
 
@@ -316,18 +354,20 @@ theorem gc_stop_terminates_regions_close (c : Cfg) (x : Exec c) (n0 : Nat) (hc :
   stop_terminates_regions x n0 hc hr
 
 /-- both halves together: under the same hypotheses there is a moment at which `stop()` has
-returned and every reclaimer whose `retire` obtained its ticket before `stop()` was called has been
-invoked — exactly once (`gc_at_most_once`). -/
+returned and every reclaimer whose `retire` obtained its ticket before `stop()` was called (not
+during an earlier `stop()`) has been invoked — exactly once (`gc_at_most_once`). -/
 theorem gc_stop_returns_with_all_invoked (c : Cfg) (x : Exec c) (n0 : Nat) (hf : Fair x n0) :
     ∃ n, (x.σ n).stop = .returned ∧ (x.σ n).invoked.Nodup ∧
-      ∀ id e k p, (x.σ n).calls id = .done e k → (x.σ n).pushAtStop = some p → k < p → id ∈ (x.σ n).invoked := by
+      ∀ id e k p, (x.σ n).calls id = .done e k → (x.σ n).pushAtStop = some p → k < p →
+        id ∉ (x.σ n).late → id ∈ (x.σ n).invoked := by
   obtain ⟨n, hn⟩ := stop_terminates x n0 hf
-  exact ⟨n, hn, invoked_nodup (x.reach n), fun id e k p h1 h2 h3 => gc_all_before_stop c _ (x.reach n) hn id e k p h1 h2 h3⟩
+  exact ⟨n, hn, invoked_nodup (x.reach n),
+    fun id e k p h1 h2 h3 h4 => gc_all_before_stop c _ (x.reach n) hn id e k p h1 h2 h3 h4⟩
 
 /-- the fairness hypothesis on the collector is satisfiable: until it has finished, the collector
-thread always has an enabled action (so a scheduler can always run it) -/
+thread always has an enabled action while it exists and has not finished (so a scheduler can always run it) -/
 theorem gc_collector_always_enabled (c : Cfg) (s : State) (hcap : 1 ≤ c.cap) (h : Reach c s)
-    (hnd : s.cpc ≠ .done) : ∃ l, l.isColl = true ∧ (step c s l).isSome = true :=
+    (hnd : collActive s.cpc = true) : ∃ l, l.isColl = true ∧ (step c s l).isSome = true :=
   collector_enabled hcap h hnd
 
 /-- … and the environment hypothesis persists once it holds: without ticks, a region entered later
@@ -341,7 +381,7 @@ theorem gc_no_stale_persists (c : Cfg) (s s' : State) (l : Lbl) (hq : Quiet s) (
 /-- the schedule of DESIGN §7 #2: a region is open (slot 0 pinned at version 0), one retire,
 `stop()`; the collector consumes the task and the marker in one batch while the region is open -/
 def openRegionRetireStop : List Lbl :=
-  [.newSlot, .enterRead 0, .enterPin 0,
+  [.start, .newSlot, .enterRead 0, .enterPin 0,
    .callRetire 7, .tick 7, .reserve 7, .publish 7,
    .callStop, .stopReserve, .stopPublish,
    .consumeBegin, .pop 2, .scanBegin, .scanEnd (some 0), .passEnd]
@@ -353,13 +393,32 @@ example :
     ((runL step ⟨2⟩ State.init (openRegionRetireStop ++
         [.scanBegin, .scanEnd (some 0), .passEnd, .leave 0,
          .scanBegin, .scanEnd none, .reclaim 7, .passEnd, .exit, .stopJoin])).map
-      (fun s => (s.invoked, decide (s.stop = .returned), s.pushAtStop))) = some ([7], true, some 1) := by decide
+      (fun s => (s.invoked, decide (s.stop = .returned), s.pushAtStop, s.late))) = some ([7], true, some 1, []) := by decide
 
 /-- … and it cannot exit or reclaim while the region is open -/
 example :
     ((runL step ⟨2⟩ State.init (openRegionRetireStop ++ [.exit])).isNone ∧
      (runL step ⟨2⟩ State.init (openRegionRetireStop ++ [.scanBegin, .scanEnd (some 1)])).isNone ∧
      (runL step ⟨2⟩ State.init (openRegionRetireStop ++ [.scanBegin, .scanEnd (some 0), .reclaim 7])).isNone) := by decide
+
+/-- Life cycle with the default capacity of one slot: reclaimer 1 is retired **before** `start()`,
+waits in the queue, is invoked by the first run; after `stop()` reclaimer 2 is retired while no
+collector exists, `start()` again, `stop()` again: both are invoked, each `stop()` has returned. -/
+example :
+    ((runL step ⟨1⟩ State.init
+        [.callRetire 1, .tick 1, .reserve 1, .publish 1,
+         .stopNoop, .start,
+         .consumeBegin, .pop 1, .scanBegin, .scanEnd none, .reclaim 1, .passEnd,
+         .callStop, .stopReserve, .stopPublish,
+         .consumeBegin, .pop 1, .scanBegin, .scanEnd none, .passEnd, .exit, .stopJoin,
+         .callRetire 2, .tick 2, .reserve 2, .publish 2,
+         .start,
+         .callStop, .stopReserve,
+         .consumeBegin, .pop 1, .scanBegin, .scanEnd none, .reclaim 2, .passEnd,
+         .stopPublish,
+         .consumeBegin, .pop 1, .scanBegin, .scanEnd none, .passEnd, .exit, .stopJoin]).map
+      (fun s => (s.invoked, decide (s.stop = .returned), s.pushAtStop, s.late, s.dropped.length))) =
+      some ([1, 2], true, some 3, [], 0) := by decide
 
 /-- **The loop before the repair** (`while (running)`, kept as the sanity mutation): on the same
 schedule the collector exits right after the batch that contained the marker, `stop()` returns, and
